@@ -159,6 +159,20 @@ func runC20(c *Ctx) {
 		R.Check(ok, "C20.R3", "ParseParameters:returns-built-list", c.at(r), "the result is the list built here (initial allocation grown only by append)", "every source of the result is the make or an append", "the result has another source than the list built by append")
 	}
 
+	// every marker of the query is considered: the regular-expression scan is not capped
+	nScan := 0
+	for _, ci := range core.Calls(pp) {
+		f := core.StaticCallee(ci)
+		if f == nil || f.Pkg == nil || f.Pkg.Pkg.Path() != "regexp" || !strings.HasPrefix(f.Name(), "FindAll") {
+			continue
+		}
+		nScan++
+		a := ci.Common().Args
+		k, isK := core.ConstInt(a[len(a)-1])
+		R.Check(isK && k < 0, "C20.R3", "ParseParameters:scan-all-markers", c.at(ci), "every marker of the query text is considered (the highest index may be the last marker)", "FindAll*(.., n) with a negative constant n", "the marker scan is limited to n matches: a highest $n that first appears after the limit is missed and the reported length is too short")
+	}
+	R.Floor("C20.R3", "marker scans in ParseParameters", nScan, 1)
+
 	// ---------- R4: towards ParameterDescription
 	// the declared list is written only where a statement is built: the WithParameters option and the cache's copy
 	nPW := 0
